@@ -125,6 +125,58 @@ def replay(variant, cell):
     return {'reproduced': how['import'] != 'ok' or how['imported_table'] != how['exported_table'], 'how': how}
 
 
+def option_probes(rep, thorough):
+    """The csv crate's quoting and the option plumbing (binder/copy.rs -> executors) are outside the interpreter.  They are
+    probed end to end: for every supported delimiter / quote / header combination a table holding the delicate cells
+    (delimiter, quote, newline, leading/trailing blanks, the text NULL, NULL itself, extreme numbers) is exported and
+    re-imported through Database::run and the two tables are compared.  Concrete probes of a contract, not a solver decision."""
+    import itertools
+    delims = [',', '|', ';', '\t'] if thorough else [',', '|']
+    quotes = ['"', "'"]
+    headers = [False, True]
+    cells = ["plain", "a,b", "a|b", 'say "hi"', "it's", "two\nlines", " padded ", "NULL", "x;y", "tab\there"]
+    n = ok = 0
+    seen = set()
+    for d, q, h in itertools.product(delims, quotes, headers):
+        wd = scratch_dir('csvopt')
+        f = os.path.join(wd, 't.csv')
+        opts = "(format csv, delimiter '%s', quote '%s'%s)" % (d if d != '\t' else '\t', q if q != "'" else "''", ', header true' if h else '')
+        rows = ["(%d, '%s', %s)" % (i, c.replace("'", "''"), 'NULL' if i % 4 == 3 else str((-1) ** i * (2 ** (8 * (i % 4)) - 1))) for i, c in enumerate(cells)]
+        rows.append("(%d, NULL, 0)" % len(cells))
+        stmts = ['create table t(id int, s varchar, n bigint)', 'create table u(id int, s varchar, n bigint)', 'insert into t values ' + ', '.join(rows),
+                 "copy t to '%s' %s" % (f, opts), "copy u from '%s' %s" % (f, opts), 'select id, s, n from t order by id', 'select id, s, n from u order by id']
+        out, rc, err = rl('sql', {'engine': 'mem', 'stmts': stmts})
+        shutil.rmtree(wd, ignore_errors=True)
+        res = {o['sql']: o for o in out if 'sql' in o}
+        a, b = res.get(stmts[-2]), res.get(stmts[-1])
+        cp_to, cp_from = res.get(stmts[3]), res.get(stmts[4])
+        n += 1
+        if a is None or not a.get('ok'):
+            rep.fail_inconclusive('csv option probe did not run: %s' % err[-200:])
+            continue
+        if cp_to is None or not cp_to.get('ok') or cp_to.get('panicked'):
+            rep.skip('COPY TO %s' % opts, 'the export statement is not accepted with these options: %s' % ((cp_to or {}).get('err') or 'panic'))
+            continue
+        imp_ok = cp_from is not None and cp_from.get('ok') and not cp_from.get('panicked')
+        same = imp_ok and b is not None and b.get('ok') and a['rows'] == b['rows']
+        if same:
+            ok += 1
+            continue
+        if imp_ok and b is not None and b.get('ok'):
+            missing = [r for r in a['rows'] if r not in b['rows']]
+            extra = [r for r in b['rows'] if r not in a['rows']]
+        else:
+            missing, extra = 'import fails: %s' % ((cp_from or {}).get('err') or 'panic'), []
+        key = 'csv:option:%s' % ('header' if h and not isinstance(missing, str) and len(missing) == 1 and not extra and missing[0][0] == '0' else 'delimiter=%s,quote=%s,header=%s' % (d, q, h))
+        if key in seen:
+            continue
+        seen.add(key)
+        what = 'COPY TO / COPY FROM with %s does not reproduce the table: rows lost or changed %s, rows appearing %s' % (opts, json.dumps(missing)[:200], json.dumps(extra)[:200])
+        outc = rep.counterexample(key, what[:500], {'stmts': stmts, 'exported': a['rows'], 'imported': b.get('rows') if b else None}, True)
+        rep.obligation(outc == 'known')
+    rep.cov['csv_option_probes'] = {'combinations': n, 'round_trips_exact': ok, 'note': 'end-to-end probes of the csv crate + option plumbing (not a solver decision)'}
+
+
 def main(tier, only=None):
     rep = Report('C20', 'model_checking', './bin/check C20 --tier ' + tier)
     prog = engine.program(True)
@@ -164,6 +216,8 @@ def main(tier, only=None):
             out = rep.counterexample(key, what[:500], {'obligation': {k: v for k, v in o.items() if k != 'pc'}, 'replay': rp}, rp['reproduced'])
             rep.obligation(out == 'known')
             rep.sample({'obligation': desc, 'verdict': 'sat', 'cell': cell, 'case': o['kind'], 'end_to_end': rp.get('how'), 'class': out}, cap=12)
+    if not only:
+        option_probes(rep, tier == 'thorough')
     rep.cov['functions_encoded'] = sorted(fns)[:40]
     rep.cov['trusted_base'] = ['natives: ' + n for n in sorted(nats)] + ['crate contracts: ' + c for c in CRATE_CONTRACTS]
     rep.cov['states'], rep.cov['transitions'] = max(states, 1), max(transitions, 1)
